@@ -34,7 +34,7 @@ CLAIMED = {
          'Decides the listed obligations; does not decide termination, absence of all undefined behaviour or assertion freedom.',
          'DESIGN.md §4 C05'),
  'C06': ('boundary-partition partial evaluation of encoder width ladders; decoding of the written header with the specification tables used for the decoders',
-         'Static ladder check: for every constant an encoder ladder variable is compared with, the points K-1, K, K+1 and the type extremes are partially evaluated; the marker/initial byte, payload conversion type and converted value written must decode (per the specification table the decoder is verified against in C07) to the same value or length, and every point must write a header or store an error. Covers MessagePack, CBOR and UBJSON integer and length ladders for every rung. Also: bin/ext ladders and null/bool/double markers of MessagePack, and every BSON element type byte with its payload width (R06.bson).',
+         'Static ladder check: for every constant an encoder ladder variable is compared with, the points K-1, K, K+1 and the type extremes are partially evaluated; the marker/initial byte, payload conversion type and converted value written must decode (per the specification table the decoder is verified against in C07) to the same value or length, and every point must write a header or store an error. Covers MessagePack, CBOR and UBJSON integer and length ladders for every rung. Also: bin/ext ladders and null/bool/double markers of MessagePack, and every BSON element type byte with its payload width (R06.bson). CBOR stringref accounting of every string the encoder writes (R06.5).',
          'Decides exhaustiveness, non-truncation and marker/width agreement of the ladders; does not decide equality of decoded and original documents, bigint or decimal128 conversions.',
          'DESIGN.md §4 C06'),
  'C09': ('tagged-union kind-set dataflow over the CFG of every basic_json member (cast typestate, unreachable exhaustiveness), compare() pair-matrix symmetry by partial evaluation, sort/unique discipline of sorted objects',
@@ -58,11 +58,11 @@ CLAIMED = {
          'Decides the listed dominance facts; does not decide equality with the RFC algorithm for all inputs nor the from_diff law.',
          'DESIGN.md §4 C16'),
  'C18': ('set comparison of the encoder quote-trigger set with the parser special-character set; partial evaluation of the quote escape writers (CSV and TOON, all 256 characters) against the readers un-escape tables; dominance in the parser escaped_value state',
-         'Static set/table agreement for CSV: every character the parser treats specially inside an unquoted field (read from the unquoted_string state) triggers quoting in the encoder, the escape writer and the parser escaped state are inverse. TOON: every character the quoted-string writer emits is read back by the reader escape table (256 characters x 2 writers), and is_unquoted_safe rejects every string the reader would not return unchanged (structural characters, literals, numbers, empty, outer white space). Necessary conditions of the round trips for every string content. Also: TOON quoting decisions receive the delimiter in force (R18.5); CSV type inference is applied to unquoted fields only (R18.6).',
+         'Static set/table agreement for CSV: every character the parser treats specially inside an unquoted field (read from the unquoted_string state) triggers quoting in the encoder, the escape writer and the parser escaped state are inverse. TOON: every character the quoted-string writer emits is read back by the reader escape table (256 characters x 2 writers), and is_unquoted_safe rejects every string the reader would not return unchanged (structural characters, literals, numbers, empty, outer white space). Necessary conditions of the round trips for every string content. Also: TOON quoting decisions receive the delimiter in force (R18.5); CSV type inference is applied to unquoted fields only (R18.6). CSV parser handles CR wherever it handles LF (R18.7).',
          'Decides the CSV and TOON quoting/escaping clauses; does not decide table equality after a round trip, type inference, equality of the two TOON number recognisers, nor TOON layout.',
          'DESIGN.md §4 C18'),
  'C17': ('typestate of expected-like results over the CFG; interprocedural size-guard rule for Json index accesses; arity rule for the fixed-size streaming decoder',
-         'Static error-discipline rules over reflect/*.hpp and the expansions of all reflection macro families (driver witness structs): a conversion_result/read_result/expected is dereferenced only under a dominating success test; every j[k] on a Json parameter is under a comparison with j.size() (locally or at every caller of its helper); decode_traits<std::array<T,N>> compares the count with N and requires end_array. Quantifies over all conversion sites, i.e. every malformed shape reaching them. Also: mandatory-member tests of all six N_* macro families hold exactly for positions below N in both routes (R17.2, folded with the class constants of witness types), and the streaming encode route always opens containers with their element count (R17.5).',
+         'Static error-discipline rules over reflect/*.hpp and the expansions of all reflection macro families (driver witness structs): a conversion_result/read_result/expected is dereferenced only under a dominating success test; every j[k] on a Json parameter is under a comparison with j.size() (locally or at every caller of its helper); decode_traits<std::array<T,N>> compares the count with N and requires end_array. Quantifies over all conversion sites, i.e. every malformed shape reaching them. Also: mandatory-member tests of all six N_* macro families hold exactly for positions below N in both routes (R17.2, folded with the class constants of witness types), and the streaming encode route always opens containers with their element count (R17.5). Key freshness of the generated decode loops (R17.6), no compiler-divergent brace-initialisation of json sequences (R17.7), cursor protocol of decode() (R17.8).',
          'Decides the listed error-discipline and arity clauses; does not decide inverse-ness or route equality of values.',
          'DESIGN.md §4 C17'),
  'C12': ('pairing rule over selector call sites (path node generated from the index/name that fetches the value); call-graph identity of json_query with compile+evaluate; clamped slice steps',
